@@ -582,7 +582,7 @@ func Monitors(c *Case) []vh.Violation {
 			}
 			if due && got[pair{sen, tgt}] == 0 {
 				add("C06:missing-notification", fmt.Sprintf("sentinel %d watched %d at step %d (target spawned=%v terminated=%v at %d) and never handled OnTerminated(%d) although it lived until the shutdown at step %d",
-					sen, tgt, wAt, spawned, terminated, ts, tgt, shut), nil)
+					sen, tgt, wAt, spawned, terminated, ts, tgt, shut), map[string]string{"cause": lcause})
 			}
 		}
 	}
